@@ -258,8 +258,11 @@ def cdr_groups_finding(M):
         return "anchor vanished: Obis.to_group_cdr_str / the groups field"
     g = tuple(Sym(x, "int") for x in "ABCDEF")
     r = AbsEval(M).apply(fn, [AObj("Obis", {gf: g}, cls_key=("obis", "Obis"))])
+    if r[0] in ("undecided", "branch"):
+        from sa.report import Undecided
+        raise Undecided(f"Obis.to_group_cdr_str is outside the interpreted subset ({r[1]})")
     if r[0] != "value":
-        return f"to_group_cdr_str could not be evaluated on symbolic groups ({r[0]}: {r[1]})"
+        return f"to_group_cdr_str raises {r[1]} on an ordinary six-group code"
     got = canon_text(r[1])
     if got != [g[2], ".", g[3], ".", g[4]]:
         return f"the C.D.E string is built as {r[1]!r} instead of groups C, D, E joined by '.'"
